@@ -126,3 +126,7 @@ mod tests {
         builder.finish();
     }
 }
+
+#[cfg(kani)]
+#[path = "/verif/kani/arrow-buffer/builder/offset.rs"]
+mod verif_kani;
